@@ -44,6 +44,17 @@ pub enum Shape {
     MemAbs,
     /// 64-bit base + displacement, no index, no segment override
     MemBase,
+    /// register shape with *fixed* registers (r/m operand = xCX, reg operand = xBX): used by the
+    /// arithmetic half of the mul/div obligations, where both sides must see the same operand terms
+    RegFixed,
+}
+
+fn pick<N: Nd>(nd: &mut N, shape: Shape, n: u8, is_rm: bool) -> u8 {
+    if shape == Shape::RegFixed {
+        if is_rm { 1 } else { 3 }
+    } else {
+        nd.below(n)
+    }
 }
 
 const GPR8: [Register; 20] = [
@@ -203,14 +214,14 @@ pub fn build<N: Nd>(nd: &mut N, code: Code, ops: &[OpClass], shape: Shape) -> (I
     for &c in ops {
         match c {
             OpClass::R8OrMem | OpClass::R16OrMem | OpClass::R32OrMem | OpClass::R64OrMem | OpClass::XmmOrMem
-                if shape != Shape::Reg =>
+                if shape != Shape::Reg && shape != Shape::RegFixed =>
             {
                 set_mem_shape(nd, &mut i, idx, &mut b, shape)
             }
             OpClass::Mem => set_mem_shape(nd, &mut i, idx, &mut b, shape),
             OpClass::MemOffs => set_moffs(nd, &mut i, idx, &mut b),
             OpClass::R8OrMem | OpClass::R8Reg | OpClass::R8Opcode => {
-                let k = nd.below(20);
+                let k = pick(nd, shape, 20, c == OpClass::R8OrMem);
                 let r = GPR8[k as usize];
                 if needs_rex8(r) {
                     b.uses_rex = true;
@@ -221,21 +232,21 @@ pub fn build<N: Nd>(nd: &mut N, code: Code, ops: &[OpClass], shape: Shape) -> (I
                 set_reg(&mut i, idx, r);
             }
             OpClass::R16OrMem | OpClass::R16Reg | OpClass::R16Opcode => {
-                let k = nd.below(16);
+                let k = pick(nd, shape, 16, c == OpClass::R16OrMem);
                 if k >= 8 {
                     b.uses_rex = true;
                 }
                 set_reg(&mut i, idx, GPR16[k as usize]);
             }
             OpClass::R32OrMem | OpClass::R32Reg | OpClass::R32Opcode => {
-                let k = nd.below(16);
+                let k = pick(nd, shape, 16, c == OpClass::R32OrMem);
                 if k >= 8 {
                     b.uses_rex = true;
                 }
                 set_reg(&mut i, idx, GPR32[k as usize]);
             }
             OpClass::R64OrMem | OpClass::R64Reg | OpClass::R64Opcode | OpClass::R64Rm => {
-                let k = nd.below(16);
+                let k = pick(nd, shape, 16, c == OpClass::R64OrMem);
                 if k >= 8 {
                     b.uses_rex = true;
                 }
